@@ -289,9 +289,10 @@ def miri_leg(agg, seeds):
     env = dict(common.CARGO_ENV, CARGO_TARGET_DIR=os.path.join(common.TARGET, "miri"),
                MIRIFLAGS="-Zmiri-disable-isolation")
     procs = []
+    manifest = common._harness_manifest()
     for s in seeds:
         cmd = ["cargo", "+nightly", "miri", "run", "--offline", "--manifest-path",
-               common._harness_manifest(), "--bin", "gcheap", "--", "random", str(s), "12", "6", "40"]
+               manifest, "--bin", "gcheap", "--", "random", str(s), "12", "6", "40"]
         procs.append((s, subprocess.Popen(cmd, env=env, stdout=subprocess.PIPE, stderr=subprocess.PIPE, text=True)))
         if s == seeds[0]:
             # first one builds; wait for it so the others reuse the build
